@@ -21,26 +21,26 @@ func init() { register("C12", checkC12) }
 // PathItemOp.Operation / ParentPathItem and PropertyDefn.Schema (set from &x at the only
 // construction sites, checked below).
 var diffNilable = map[string]map[string]bool{
-	"SchemaProps":        {"Items": true, "AdditionalProperties": true, "AdditionalItems": true, "Not": true},
-	"Schema":             {"Items": true, "AdditionalProperties": true, "AdditionalItems": true, "Not": true, "ExternalDocs": true, "XML": true},
-	"SchemaOrArray":      {"Schema": true},
-	"SchemaOrBool":       {"Schema": true},
-	"ParamProps":         {"Schema": true},
-	"Parameter":          {"Schema": true, "Items": true},
-	"SimpleSchema":       {"Items": true},
-	"Items":              {"Items": true},
-	"Header":             {"Items": true},
-	"ResponseProps":      {"Schema": true},
-	"Response":           {"Schema": true},
-	"InfoProps":          {"Contact": true, "License": true},
-	"Info":               {"Contact": true, "License": true},
-	"PathItemProps":      {"Get": true, "Put": true, "Post": true, "Delete": true, "Options": true, "Head": true, "Patch": true},
-	"PathItem":           {"Get": true, "Put": true, "Post": true, "Delete": true, "Options": true, "Head": true, "Patch": true},
-	"OperationProps":     {"ExternalDocs": true},
-	"Operation":          {"ExternalDocs": true},
-	"Responses":          {"Default": true},
-	"ResponsesProps":     {"Default": true},
-	"Node": {"ChildNode": true},
+	"SchemaProps":    {"Items": true, "AdditionalProperties": true, "AdditionalItems": true, "Not": true},
+	"Schema":         {"Items": true, "AdditionalProperties": true, "AdditionalItems": true, "Not": true, "ExternalDocs": true, "XML": true},
+	"SchemaOrArray":  {"Schema": true},
+	"SchemaOrBool":   {"Schema": true},
+	"ParamProps":     {"Schema": true},
+	"Parameter":      {"Schema": true, "Items": true},
+	"SimpleSchema":   {"Items": true},
+	"Items":          {"Items": true},
+	"Header":         {"Items": true},
+	"ResponseProps":  {"Schema": true},
+	"Response":       {"Schema": true},
+	"InfoProps":      {"Contact": true, "License": true},
+	"Info":           {"Contact": true, "License": true},
+	"PathItemProps":  {"Get": true, "Put": true, "Post": true, "Delete": true, "Options": true, "Head": true, "Patch": true},
+	"PathItem":       {"Get": true, "Put": true, "Post": true, "Delete": true, "Options": true, "Head": true, "Patch": true},
+	"OperationProps": {"ExternalDocs": true},
+	"Operation":      {"ExternalDocs": true},
+	"Responses":      {"Default": true},
+	"ResponsesProps": {"Default": true},
+	"Node":           {"ChildNode": true},
 	// DifferenceLocation.Node: nil for spec-level locations; every location handed to
 	// compareSchema carries a node (checked by C12.R1.construction)
 }
